@@ -3456,7 +3456,24 @@ func (p *Posix) DeleteObjects(ctx context.Context, input *s3.DeleteObjectsInput)
 	}, nil
 }
 
-func (p *Posix) GetObject(_ context.Context, input *s3.GetObjectInput) (*s3.GetObjectOutput, error) {
+// errObjectReplaced is returned by getObject when the object was replaced
+// while it was being looked at
+var errObjectReplaced = errors.New("object replaced during read")
+
+func (p *Posix) GetObject(ctx context.Context, input *s3.GetObjectInput) (*s3.GetObjectOutput, error) {
+	// size, ETag and metadata are read by path and the data from the file
+	// that is opened afterwards: when a concurrent overwrite (which
+	// replaces the file by rename) gets in between, start over so that the
+	// answer describes one object and not a mixture of two
+	for i := 0; ; i++ {
+		out, err := p.getObject(ctx, input)
+		if !errors.Is(err, errObjectReplaced) || i == 9 {
+			return out, err
+		}
+	}
+}
+
+func (p *Posix) getObject(_ context.Context, input *s3.GetObjectInput) (*s3.GetObjectOutput, error) {
 	if input.Bucket == nil {
 		return nil, s3err.GetAPIError(s3err.ErrInvalidBucketName)
 	}
@@ -3642,6 +3659,16 @@ func (p *Posix) GetObject(_ context.Context, input *s3.GetObjectInput) (*s3.GetO
 	}
 	if err != nil {
 		return nil, fmt.Errorf("open object: %w", err)
+	}
+	// everything above was read by path: it has to belong to this file
+	ofi, err := f.Stat()
+	if err != nil {
+		f.Close()
+		return nil, fmt.Errorf("stat object: %w", err)
+	}
+	if !os.SameFile(fi, ofi) {
+		f.Close()
+		return nil, errObjectReplaced
 	}
 
 	var checksums s3response.Checksum
